@@ -882,3 +882,42 @@ def seed_jobs():
         f["yaml"] = render_yaml(f)
         jobs.append({"schemas": copy.deepcopy(schemas), "language": "go", "via": "yaml" if n % 2 else "direct", "files": [f]})
     return jobs
+
+
+# ---------------------------------------------------------------- deep assignment paths
+def deep_path_job(rng):
+    """a chain of structs L0.f1 -> L1.f2 -> ... -> Lk with a leaf of several differently typed fields; rules
+    that derive SEVERAL paths from one prefix of k items (merge_into under a k-segment path, struct fields
+    unfolded level by level): every derived path must still end at its own field, whatever k is"""
+    r = rng
+    k = r.choice([1, 2, 3, 3, 3, 4, 5, 6, 7, 8])
+    leaf_types = [S("string"), S("bool"), S("int64"), {"k": "array", "v": S("string")}, S("float64"),
+                  {"k": "map", "i": S("string"), "v": S("bool")}]
+    nleaf = r.randint(2, 5)
+    leaf_fields = [{"name": n, "type": copy.deepcopy(t), "req": True}
+                   for n, t in zip(r.sample(["unit", "hidden", "width", "tags", "ratio", "labels"], nleaf), r.sample(leaf_types, nleaf))]
+    objs = []
+    fnames = r.sample(["fieldConfig", "defaults", "custom", "inner", "spec", "cfg", "deep", "more", "last"], k)
+    for i in range(k):
+        fields = [{"name": fnames[i], "type": {"k": "ref", "pkg": "deep", "name": "L%d" % (i + 1)}, "req": True}]
+        if r.random() < 0.5:
+            fields.append({"name": "title%d" % i, "type": S("string"), "req": True})
+        r.shuffle(fields)
+        objs.append({"name": "L%d" % i, "type": {"k": "struct", "fields": fields}})
+    objs.append({"name": "L%d" % k, "type": {"k": "struct", "fields": leaf_fields}})
+    schemas = [{"pkg": "deep", "meta": {}, "entry": "", "objects": objs}]
+    brules, orules = [], []
+    mode = r.choice(["merge", "merge", "unfold_options", "unfold_arguments", "merge_then_write"])
+    if mode.startswith("merge"):
+        start = r.choice([0, 0, 0, 1]) if k > 1 else 0
+        brules.append({"merge_into": {"destination": "L%d" % start, "source": "L%d" % k, "under_path": ".".join(fnames[start:])}})
+        if mode == "merge_then_write":
+            f = r.choice(leaf_fields)
+            orules.append(writer_rule(RuleGen(r, schemas), r, {"by_builder": "L%d.%s" % (start, f["name"])}, f))
+    else:
+        rule = "struct_fields_as_options" if mode == "unfold_options" else "struct_fields_as_arguments"
+        for i in range(k):
+            orules.append({"struct_fields_as_options" if i < k - 1 else rule: {"by_name": "L0." + fnames[i]}})
+    f = {"language": "all", "package": "deep", "builders": brules, "options": orules}
+    f["yaml"] = render_yaml(f)
+    return {"schemas": schemas, "language": "go", "via": "yaml" if r.random() < 0.5 else "direct", "files": [f]}
